@@ -91,9 +91,9 @@ def hubStep (s : Hub) : HubOp → Hub
   | .lAdd c n =>
     match s.stateOf c with
     | some (.authed _) =>
-      let s1 := s.retain (.lAdd n)                 -- the operator's request is retained as it is
-      if s1.listeners.contains n then s1           -- "listener already exists": error to the requester only
-      else ({ s1 with listeners := s1.listeners ++ [n] }.retain (.lAdd n)).broadcast (.lAdd n) none
+      -- the request itself is not retained; "listener already exists" is an error to the requester only
+      if s.listeners.contains n then s
+      else ({ s with listeners := s.listeners ++ [n] }.retain (.lAdd n)).broadcast (.lAdd n) none
     | _ => s
   | .lRemove c n =>
     match s.stateOf c with
